@@ -24,10 +24,11 @@ def build(case, seed=0):
     rnd = random.Random(f"settings:{seed}:{sorted(case['present'])}:{case['chan']}:{case['fname']}:{case.get('ent')}")
     tag = rnd.randint(100, 999)
     vals = {
-        "title": f"Title atom {tag}", "id": f"id_atom_{tag}", "version": f"ver{tag}", "name": f"rootnm{tag}",
-        "instance_name": f"concat('in', '{tag}')", "submission_url": f"http://sub.example/{tag}", "public_key": f"PUBKEY{tag}",
+        # (settings cells are not whitespace-cleaned: runs of blanks inside a value are part of it)
+        "title": f"Title  atom   {tag}", "id": f"id_atom_{tag}", "version": f"ver  {tag}", "name": f"rootnm{tag}",
+        "instance_name": f"concat('in  x', '{tag}')", "submission_url": f"http://sub.example/{tag}", "public_key": f"PUBKEY{tag}",
         "auto_send": rnd.choice(["yes", "true"]), "auto_delete": rnd.choice(["no", "false"]), "style": rnd.choice(["pages", "theme-grid", f"pages cls{tag}"]),
-        "namespaces": f'exns="{NS_URI}"', "attr_plain": f"plainval{tag}", "attr_ns": f"nsval{tag}", "omit_id": rnd.choice(["yes", "true", "Yes"]),
+        "namespaces": f'exns="{NS_URI}"', "attr_plain": f"plain  val{tag}", "attr_ns": f"nsval{tag}", "omit_id": rnd.choice(["yes", "true", "Yes"]),
         "instance_xmlns": f"http://example.com/inst{tag}", "prefix": f"pfx{tag}", "delimiter": f"dlm{tag}",
         "attr_id": f"legacyid{tag}", "attr_version": f"legacyver{tag}",
     }
